@@ -981,21 +981,33 @@ def check_scenario(ctx, dec_idx, rew_idx, steps, variant=0):
 
 # ---------------------------------------------------------------------------------------------
 def run(ctx):
+    import time
+
     budget = BUDGET_S[ctx.tier]
+    t = [time.process_time()]
+
+    def lap(name):
+        t.append(time.process_time())
+        ctx.count("cpu_s_" + name, round(t[-1] - t[-2], 1))
+
     # 1. real scenario(s): shard i drives policy i % 4 with reward (i // 4 + i) % 4
     steps = 10 if ctx.quick else 30
     try:
         check_scenario(ctx, ctx.shard % 4, (ctx.shard // 4 + ctx.shard) % 4, steps, variant=ctx.shard // 4 + 4 * (ctx.seed % 3))
-    except Exception as e:  # noqa: BLE001
+    except Exception:  # noqa: BLE001
         import traceback
 
         ctx.inconclusive_because("scenario workload raised: " + traceback.format_exc()[-900:])
+    lap("scenario")
     # 2. rewards
     run_rewards(ctx, ctx.scale(2400, 160_000), reserve_s=budget * 0.8)
+    lap("rewards")
     # 3. exhaustive small scope (the heart)
     run_exhaustive(ctx, frac_budget=0.75)
+    lap("exhaustive")
     # 4. random larger problems with what is left
     run_random(ctx, ctx.scale(2400, 160_000), reserve_s=budget * 0.12)
+    lap("random")
 
 
 def replay(ctx, w):
